@@ -28,7 +28,7 @@ Definition StBadSessionIDInvalid := 2149908480.       (* 0x80250000 *)
 Definition StBadSessionNotActivated := 2150039552.    (* 0x80270000 *)
 Definition StBadSubscriptionIDInvalid := 2150105088.  (* 0x80280000 *)
 Definition StBadInternalError := 2147614720.          (* 0x80020000 *)
-Definition StBadMonitoredItemIDInvalid := 2151677952. (* 0x80420000 *)
+Definition StBadMonitoredItemIDInvalid := 2151809024. (* 0x80420000 *)
 
 (* service ids (DefaultBinary encoding ids of the request types) *)
 Definition SvcFindServers := 422.
@@ -121,7 +121,8 @@ Inductive outcome :=
 | OOther                                (* GetEndpoints / a handler answering BadServiceUnsupported *)
 | OInternal
 | OPanic (why : N)
-| OOutOfFuel.
+| OOutOfFuel
+| OHang.                                (* the dispatcher goroutine blocks forever *)
 
 Definition PanicNilSession := 2.      (* worker dereferences a nil session *)
 Definition PanicTicker := 3.          (* time.NewTicker with a non-positive period *)
@@ -308,6 +309,20 @@ Definition handle (fuel : nat) (s : srv) (e : event) : srv * outcome :=
            (filter (fun e => negb (it_sub (snd e) =? id)) (sv_items s)) (sv_item_ctr s) (sv_endpoints s), OInternal)
   | EDelItem id => (set_items s (alist_del id (sv_items s)) (sv_item_ctr s), OInternal)
   end.
+
+(* handleService ends with sc.SendResponseWithContext on the dispatcher goroutine itself (server.go: "should this be
+   delegated to another goroutine in case handling this hangs?"). The write returns when the socket has taken the
+   bytes; towards a peer that has stopped reading (its receive window and the send buffer are full) it never does,
+   and no other request is dispatched meanwhile.  `reading chan` = the peer of that channel still reads. *)
+Definition deliver (reading : N -> bool) (e : event) (o : outcome) : outcome :=
+  match e, o with
+  | EReq _ _ _, OPublishQueued => o            (* nothing is written now *)
+  | EReq chan _ _, _ => if reading chan then o else OHang
+  | _, _ => o
+  end.
+
+Definition serve (fuel : nat) (reading : N -> bool) (s : srv) (e : event) : srv * outcome :=
+  let '(s', o) := handle fuel s e in (s', deliver reading e o).
 
 Definition step (fuel : nat) (s : srv) (e : event) : srv := fst (handle fuel s e).
 Definition run (fuel : nat) (s : srv) (h : list event) : srv := fold_left (step fuel) h s.
